@@ -3,6 +3,7 @@ CONSTANTS
   LongLen = 5
   StartPerms = {0, 420, 2541}
   StringPerms = {420}
+  RawKinds = {"file", "dir", "link"}
   DoubleGroups <- DoubleGroupsDef
   DoublePerms <- DoublePermsDef
 SPECIFICATION Spec
